@@ -1,7 +1,7 @@
 (* ScopesThm.v — proofs about Scopes.v (C09, second half: names of one scope never merge silently). *)
-From Coq Require Import NArith PeanoNat List Bool Lia ZifyBool.
+From Coq Require Import NArith ZArith PeanoNat List Bool Lia ZifyBool.
 Import ListNotations.
-Require Import OPC.gen.GenTables OPC.Uni OPC.Names OPC.NamesThm OPC.Scopes.
+Require Import OPC.gen.GenTables OPC.Uni OPC.Names OPC.NamesThm OPC.Values OPC.ValuesThm OPC.Scopes.
 Open Scope N_scope.
 
 (* a concrete name that needs no prefix: the result does not depend on the prefix *)
@@ -736,3 +736,250 @@ Print Assumptions params_distinct_quiet.
 Print Assumptions params_distinct.
 Print Assumptions model_params_distinct.
 Print Assumptions classes_distinct_or_error.
+
+(* ================= (d') the class-name scope with enums ================= *)
+Lemma evalue_eqb_eq a b : evalue_eqb a b = true -> a = b.
+Proof.
+  destruct a, b; cbn [evalue_eqb]; intro H; try discriminate.
+  - apply Z.eqb_eq in H. now subst.
+  - apply str_eqb_eq in H. now subst.
+Qed.
+
+Lemma elookup_Some_In k v : forall m, elookup k m = Some v -> In (k, v) m.
+Proof.
+  induction m as [|[k' v'] m IH]; cbn [elookup]; [discriminate|].
+  destruct (str_eqb k' k) eqn:E; [intros [= <-]; apply str_eqb_eq in E; subst; now left | intro H; right; auto].
+Qed.
+
+Lemma elookup_None k : forall m, elookup k m = None <-> ~ In k (map fst m).
+Proof.
+  induction m as [|[k' v'] m IH]; cbn [elookup map fst In]; [tauto|].
+  destruct (str_eqb k' k) eqn:E.
+  - apply str_eqb_eq in E. subst. split; [discriminate | intro H; exfalso; apply H; now left].
+  - apply str_eqb_neq in E. rewrite IH. tauto.
+Qed.
+
+Lemma elookup_In_nodup k v : forall m, NoDup (map fst m) -> In (k, v) m -> elookup k m = Some v.
+Proof.
+  induction m as [|[k' v'] m IH]; intros Hnd Hin; [destruct Hin|]. cbn [map fst] in Hnd. inversion Hnd as [|? ? Hx Hnd']; subst.
+  cbn [elookup]. destruct Hin as [[= -> ->]|Hin].
+  - now rewrite str_eqb_refl.
+  - destruct (str_eqb k' k) eqn:E; [|now apply IH].
+    apply str_eqb_eq in E. subst. exfalso. apply Hx. apply in_map_iff. exists (k, v). split; [reflexivity|exact Hin].
+Qed.
+
+Lemma table_eqb_equiv a b : NoDup (map fst a) -> NoDup (map fst b) -> table_eqb a b = true -> tbl_equiv a b.
+Proof.
+  intros Ha Hb H. unfold table_eqb in H. apply andb_true_iff in H as [Hl Hf]. apply Nat.eqb_eq in Hl.
+  rewrite forallb_forall in Hf.
+  assert (Hkeys: forall k v, In (k, v) a -> elookup k b = Some v).
+  { intros k v Hin. specialize (Hf _ Hin). cbn [fst snd] in Hf. destruct (elookup k b) as [v'|]; [|discriminate].
+    apply evalue_eqb_eq in Hf. now subst. }
+  assert (Hincl: incl (map fst b) (map fst a)).
+  { apply NoDup_length_incl; [exact Ha | rewrite !map_length; lia |].
+    intros k Hk. apply in_map_iff in Hk as [[k' v] [<- Hin]]. cbn [fst].
+    apply Hkeys in Hin. apply elookup_Some_In in Hin. apply in_map_iff. exists (k', v). now split. }
+  intro k. destruct (elookup k a) as [v|] eqn:Ea.
+  - apply elookup_Some_In in Ea. symmetry. now apply Hkeys.
+  - symmetry. apply elookup_None. intro Hk. apply Hincl in Hk. apply elookup_None in Ea. contradiction.
+Qed.
+
+Lemma clookup_None c : forall tab, clookup c tab = None <-> ~ In c (map fst tab).
+Proof.
+  induction tab as [|[c' e] tab IH]; cbn [clookup map fst In]; [tauto|].
+  destruct (str_eqb c' c) eqn:E.
+  - apply str_eqb_eq in E. subst. split; [discriminate | intro H; exfalso; apply H; now left].
+  - apply str_eqb_neq in E. rewrite IH. tauto.
+Qed.
+
+Lemma clookup_In_nodup c e : forall tab, NoDup (map fst tab) -> In (c, e) tab -> clookup c tab = Some e.
+Proof.
+  induction tab as [|[c' e'] tab IH]; intros Hnd Hin; [destruct Hin|]. cbn [map fst] in Hnd. inversion Hnd as [|? ? Hx Hnd']; subst.
+  cbn [clookup]. destruct Hin as [[= -> ->]|Hin].
+  - now rewrite str_eqb_refl.
+  - destruct (str_eqb c' c) eqn:E; [|now apply IH].
+    apply str_eqb_eq in E. subst. exfalso. apply Hx. apply in_map_iff. exists (c, e). split; [reflexivity|exact Hin].
+Qed.
+
+Lemma clookup_snoc c c0 e0 : forall tab,
+  clookup c (tab ++ [(c0, e0)]) = match clookup c tab with Some x => Some x | None => if str_eqb c0 c then Some e0 else None end.
+Proof.
+  induction tab as [|[c' e'] tab IH]; cbn [app clookup]; [reflexivity|].
+  destruct (str_eqb c' c); [reflexivity|exact IH].
+Qed.
+
+Lemma creplace_keys c e : forall tab, map fst (creplace c e tab) = map fst tab.
+Proof.
+  induction tab as [|[c' e'] tab IH]; cbn [creplace map fst]; [reflexivity|].
+  destruct (str_eqb c' c); cbn [map fst]; [reflexivity | now rewrite IH].
+Qed.
+
+Lemma clookup_creplace c e c1 : forall tab,
+  clookup c1 (creplace c e tab) = match clookup c1 tab with Some x => if str_eqb c c1 then Some e else Some x | None => None end.
+Proof.
+  induction tab as [|[c' e'] tab IH]; cbn [creplace clookup]; [reflexivity|].
+  destruct (str_eqb c' c) eqn:E; cbn [clookup].
+  - apply str_eqb_eq in E. subst c'. destruct (str_eqb c c1) eqn:E1; [reflexivity|].
+    destruct (clookup c1 tab); reflexivity.
+  - destruct (str_eqb c' c1) eqn:E1; [|exact IH].
+    destruct (str_eqb c c1) eqn:E2; [|reflexivity].
+    apply str_eqb_eq in E1, E2. subst. rewrite str_eqb_refl in E. discriminate.
+Qed.
+
+Lemma values_from_list_nodup vs t : values_from_list vs = Some t -> NoDup (map fst t).
+Proof. intro H. exact (values_from_list_keys_nodup vs t H). Qed.
+
+(* a surviving declaration is represented by the entry under its class name *)
+Definition entry_matches (d : cdecl) (e : option centry) : Prop :=
+  match decl_table d with
+  | Some t1 => exists t', e = Some (CEnum t') /\ tbl_equiv t1 t'
+  | None => e = Some CModel
+  end.
+
+Definition decls_inv (prefix : str) (tab : list (str * centry)) (errs seen : list cdecl) : Prop :=
+  NoDup (map fst tab) /\
+  (forall c t, clookup c tab = Some (CEnum t) -> exists d, In d seen /\ decl_class prefix d = c /\ decl_table d = Some t) /\
+  (forall d, In d seen -> ~ In d errs -> entry_matches d (clookup (decl_class prefix d) tab)) /\
+  (forall d, In d errs -> In d seen) /\
+  (forall p n vs, In (DEnum p n vs) seen -> values_from_list vs <> None).
+
+Lemma tbl_equiv_refl a : tbl_equiv a a.
+Proof. intro k. reflexivity. Qed.
+Lemma tbl_equiv_trans a b c : tbl_equiv a b -> tbl_equiv b c -> tbl_equiv a c.
+Proof. intros H1 H2 k. now rewrite H1. Qed.
+Lemma tbl_equiv_sym a b : tbl_equiv a b -> tbl_equiv b a.
+Proof. intros H k. now rewrite H. Qed.
+
+Lemma add_decls_inv prefix : forall ds tab errs seen tab' errs',
+  decls_inv prefix tab errs seen ->
+  add_decls prefix tab errs ds = Some (tab', errs') ->
+  decls_inv prefix tab' errs' (seen ++ ds).
+Proof.
+  induction ds as [|d ds IH]; intros tab errs seen tab' errs' Inv H; cbn [add_decls] in H.
+  - injection H as <- <-. now rewrite app_nil_r.
+  - destruct (add_decl prefix tab d) as [[tab1|]|] eqn:Ed; [| |discriminate];
+      (replace (seen ++ d :: ds) with ((seen ++ [d]) ++ ds) by (now rewrite <- app_assoc));
+      apply (IH _ _ _ _ _) with (2 := H); clear IH H;
+      destruct Inv as [I1 [I2 [I3 [I4 I5]]]].
+    + (* accepted *)
+      unfold add_decl in Ed. set (c := decl_class prefix d) in *.
+      assert (Hold: forall x, In x seen -> ~ In x errs -> clookup (decl_class prefix x) tab <> None).
+      { intros x Hx Hnx Hn. specialize (I3 x Hx Hnx). rewrite Hn in I3. unfold entry_matches in I3.
+        destruct (decl_table x) eqn:Et; [destruct I3 as [? [? _]]; discriminate|discriminate]. }
+      assert (I5': forall p0 n0 vs0, In (DEnum p0 n0 vs0) (seen ++ [d]) -> values_from_list vs0 <> None).
+      { intros p0 n0 vs0 Hin. apply in_app_or in Hin as [Hin|[Hd|[]]]; [now apply (I5 p0 n0)|]. subst d.
+        cbn beta iota in Ed. destruct (values_from_list vs0); [discriminate|discriminate]. }
+      destruct d as [n|p n vs].
+      * (* model *)
+        destruct (clookup c tab) eqn:Ec; [discriminate|]. injection Ed as <-.
+        split; [|split; [|split; [|split; [|exact I5']]]].
+        -- rewrite map_app. cbn [map fst]. apply NoDup_snoc; [exact I1|]. now apply clookup_None.
+        -- intros c1 t Hl. rewrite clookup_snoc in Hl. destruct (clookup c1 tab) eqn:E1.
+           ++ injection Hl as ->. destruct (I2 _ _ E1) as [x [Hx Hy]]. exists x. split; [apply in_or_app; now left|exact Hy].
+           ++ destruct (str_eqb c c1); discriminate.
+        -- intros x Hx Hnx. apply in_app_or in Hx as [Hx|[<-|[]]].
+           ++ rewrite clookup_snoc. specialize (I3 x Hx Hnx). destruct (clookup (decl_class prefix x) tab) eqn:E1; [exact I3|].
+              exfalso. now apply (Hold x Hx Hnx).
+           ++ rewrite clookup_snoc. fold c. rewrite Ec, str_eqb_refl. reflexivity.
+        -- intros x Hx. apply in_or_app. left. now apply I4.
+      * (* enum *)
+        destruct (values_from_list vs) as [t|] eqn:Ev; [|discriminate].
+        destruct (clookup c tab) as [[|t']|] eqn:Ec.
+        -- discriminate.
+        -- destruct (table_eqb t t') eqn:Eq; [|discriminate]. injection Ed as <-.
+           assert (Heq: tbl_equiv t t').
+           { apply table_eqb_equiv; [now apply (values_from_list_nodup vs) | | exact Eq].
+             destruct (I2 _ _ Ec) as [x [_ [_ Hx]]]. destruct x; [discriminate|]. cbn [decl_table] in Hx. now apply values_from_list_nodup in Hx. }
+           split; [|split; [|split; [|split; [|exact I5']]]].
+           ++ now rewrite creplace_keys.
+           ++ intros c1 t1 Hl. rewrite clookup_creplace in Hl. destruct (clookup c1 tab) eqn:E1; [|discriminate].
+              destruct (str_eqb c c1) eqn:E2.
+              ** injection Hl as <-. apply str_eqb_eq in E2. exists (DEnum p n vs). split; [apply in_or_app; right; now left|]. split; [now rewrite <- E2|exact Ev].
+              ** injection Hl as ->. destruct (I2 _ _ E1) as [x [Hx Hy]]. exists x. split; [apply in_or_app; now left|exact Hy].
+           ++ intros x Hx Hnx. rewrite clookup_creplace. apply in_app_or in Hx as [Hx|[<-|[]]].
+              ** specialize (I3 x Hx Hnx). destruct (clookup (decl_class prefix x) tab) eqn:E1; [|exact I3].
+                 destruct (str_eqb c (decl_class prefix x)) eqn:E2; [|exact I3].
+                 apply str_eqb_eq in E2. rewrite <- E2, Ec in E1. injection E1 as <-.
+                 unfold entry_matches in *. destruct (decl_table x) as [t1|].
+                 --- destruct I3 as [t2 [[= <-] He]]. exists t. split; [reflexivity|]. eapply tbl_equiv_trans; [exact He|]. now apply tbl_equiv_sym.
+                 --- discriminate.
+              ** fold c. rewrite Ec, str_eqb_refl. unfold entry_matches. cbn [decl_table]. rewrite Ev. exists t. split; [reflexivity|apply tbl_equiv_refl].
+           ++ intros x Hx. apply in_or_app. left. now apply I4.
+        -- injection Ed as <-.
+           split; [|split; [|split; [|split; [|exact I5']]]].
+           ++ rewrite map_app. cbn [map fst]. apply NoDup_snoc; [exact I1|]. now apply clookup_None.
+           ++ intros c1 t1 Hl. rewrite clookup_snoc in Hl. destruct (clookup c1 tab) eqn:E1.
+              ** injection Hl as ->. destruct (I2 _ _ E1) as [x [Hx Hy]]. exists x. split; [apply in_or_app; now left|exact Hy].
+              ** destruct (str_eqb c c1) eqn:E2; [|discriminate]. injection Hl as <-. apply str_eqb_eq in E2.
+                 exists (DEnum p n vs). split; [apply in_or_app; right; now left|]. split; [now rewrite <- E2|exact Ev].
+           ++ intros x Hx Hnx. apply in_app_or in Hx as [Hx|[<-|[]]].
+              ** rewrite clookup_snoc. specialize (I3 x Hx Hnx). destruct (clookup (decl_class prefix x) tab) eqn:E1; [exact I3|].
+                 exfalso. now apply (Hold x Hx Hnx).
+              ** rewrite clookup_snoc. fold c. rewrite Ec, str_eqb_refl. unfold entry_matches. cbn [decl_table]. rewrite Ev.
+                 exists t. split; [reflexivity|apply tbl_equiv_refl].
+           ++ intros x Hx. apply in_or_app. left. now apply I4.
+    + (* reported *)
+      split; [exact I1|]. split; [|split; [|split]].
+      * intros c t Hl. destruct (I2 _ _ Hl) as [x [Hx Hy]]. exists x. split; [apply in_or_app; now left|exact Hy].
+      * intros x Hx Hnx. apply in_app_or in Hx as [Hx|[<-|[]]].
+        -- apply I3; [exact Hx|]. intro Hin. apply Hnx. apply in_or_app. now left.
+        -- exfalso. apply Hnx. apply in_or_app. right. now left.
+      * intros x Hx. apply in_app_or in Hx as [Hx|[<-|[]]]; apply in_or_app; [left; now apply I4 | right; now left].
+      * intros p0 n0 vs0 Hin. apply in_app_or in Hin as [Hin|[Hd|[]]]; [now apply (I5 p0 n0)|]. subst d.
+        unfold add_decl in Ed. destruct (values_from_list vs0); [discriminate|discriminate].
+Qed.
+
+(* enum_classes_distinct_or_shared: over any list of class-minting declarations (object schemas and enums, in processing order), if the
+   generator does not crash: class names are pairwise distinct; the member table of every generated enum class is exactly the table of
+   one declared value list of that class name; every declaration is reported or represented; two unreported enums with one class name
+   have the same member names with the same values (they share the class); an enum and a model with one class name are never both kept *)
+Theorem enum_classes_distinct_or_shared prefix ds tab errs :
+  model_decls prefix ds = Some (tab, errs) ->
+  NoDup (map fst tab) /\
+  (forall c t, In (c, CEnum t) tab ->
+     exists p n vs, In (DEnum p n vs) ds /\ decl_class prefix (DEnum p n vs) = c /\ values_from_list vs = Some t) /\
+  (forall d, In d ds -> In d errs \/ exists e, clookup (decl_class prefix d) tab = Some e) /\
+  (forall d1 d2 t1 t2, In d1 ds -> In d2 ds -> decl_class prefix d1 = decl_class prefix d2 ->
+     decl_table d1 = Some t1 -> decl_table d2 = Some t2 -> ~ In d1 errs -> ~ In d2 errs -> tbl_equiv t1 t2) /\
+  (forall n d2 t2, In (DModel n) ds -> In d2 ds -> decl_class prefix (DModel n) = decl_class prefix d2 ->
+     decl_table d2 = Some t2 -> In (DModel n) errs \/ In d2 errs) /\
+  (forall d, In d errs -> In d ds).
+Proof.
+  unfold model_decls. intro H.
+  assert (I0: decls_inv prefix [] [] []).
+  { split; [constructor|]. split; [intros c t Hl; discriminate|]. split; [intros d []|]. split; [intros d []|intros ? ? ? []]. }
+  pose proof (add_decls_inv _ _ _ _ _ _ _ I0 H) as [I1 [I2 [I3 [I4 I5]]]]. cbn [app] in *.
+  assert (Hdec: forall d : cdecl, In d errs \/ ~ In d errs).
+  { intro d. destruct (in_dec (fun a b : cdecl => ltac:(decide equality; try apply (list_eq_dec N.eq_dec); try apply (list_eq_dec (list_eq_dec N.eq_dec));
+      try (apply list_eq_dec; decide equality; try apply Z.eq_dec; apply (list_eq_dec N.eq_dec)))) d errs); auto. }
+  split; [exact I1|]. split; [|split; [|split; [|split]]].
+  - intros c t Hin. apply (clookup_In_nodup _ _ _ I1) in Hin. destruct (I2 _ _ Hin) as [d [Hd [Hc Ht]]].
+    destruct d as [|p n vs]; [discriminate|]. exists p, n, vs. auto.
+  - intros d Hd. destruct (Hdec d) as [He|He]; [now left|right]. specialize (I3 d Hd He). unfold entry_matches in I3.
+    destruct (decl_table d) eqn:Et.
+    + destruct I3 as [t' [-> _]]. eauto.
+    + eauto.
+  - intros d1 d2 t1 t2 H1 H2 Ec E1 E2 N1 N2. pose proof (I3 d1 H1 N1) as M1. pose proof (I3 d2 H2 N2) as M2.
+    unfold entry_matches in M1, M2. rewrite E1 in M1. rewrite E2 in M2. rewrite Ec in M1.
+    destruct M1 as [ta [Ea Ha]], M2 as [tb [Eb Hb]]. rewrite Ea in Eb. injection Eb as <-.
+    eapply tbl_equiv_trans; [exact Ha|]. now apply tbl_equiv_sym.
+  - intros n d2 t2 H1 H2 Ec E2. destruct (Hdec (DModel n)) as [He|N1]; [now left|]. destruct (Hdec d2) as [He|N2]; [now right|].
+    exfalso. pose proof (I3 _ H1 N1) as M1. pose proof (I3 d2 H2 N2) as M2.
+    unfold entry_matches in M1, M2. cbn [decl_table] in M1. rewrite E2 in M2. rewrite Ec in M1. destruct M2 as [tb [Eb _]]. congruence.
+  - exact I4.
+Qed.
+
+Transparent python_identifier class_name.
+(* non-vacuity: FooBar = [on, off] then foo_bar = [ON, OFF] (same member names ON / OFF, different values) -> the second is reported;
+   an equal twin is shared; a model of the same class name is reported *)
+Example enum_classes_nonvacuous :
+  let on := [111;110] in let off := [111;102;102] in let ON := [79;78] in let OFF := [79;70;70] in
+  let foobar := [70;111;111;66;97;114] in let foo_bar := [102;111;111;95;98;97;114] in
+  model_decls [102;105;101;108;100;95] [DEnum [] foobar [EStr on; EStr off]; DEnum [] foo_bar [EStr ON; EStr OFF];
+                                       DEnum [70;111;111] [98;97;114] [EStr off; EStr on]; DModel foo_bar] =
+    Some ([(foobar, CEnum [([79;70;70], EStr off); ([79;78], EStr on)])],
+          [DEnum [] foo_bar [EStr ON; EStr OFF]; DModel foo_bar]).
+Proof. vm_compute. reflexivity. Qed.
+Opaque python_identifier class_name.
+
+Print Assumptions enum_classes_distinct_or_shared.
